@@ -280,3 +280,21 @@ Definition file_of_batches (cfg : config) (bs : list (list value)) : bytes :=
         ++ concat (close_writes cfg (map snd wr)).
 
 End WithCodec.
+
+(** ** A failing sink (property C09).  [calls] are the sink writes of each API
+    call of a fault-free run; the sink fails its [k]-th Write (0-based).  Every
+    sink write in the code is followed by [if err != nil { return err }], so the
+    call during which the failing write happens returns the error and the run
+    stops there.  Result: per call made, whether it returned an error, and the
+    writes that reached the sink. *)
+Fixpoint run_fault (calls : list (list bytes)) (k : option nat) : list bool * list bytes :=
+  match calls with
+  | [] => ([], [])
+  | ws :: rest =>
+      match k with
+      | Some j =>
+          if Nat.ltb j (length ws) then ([true], firstn j ws)
+          else let '(fl, out) := run_fault rest (Some (j - length ws)%nat) in (false :: fl, ws ++ out)
+      | None => let '(fl, out) := run_fault rest None in (false :: fl, ws ++ out)
+      end
+  end.
